@@ -62,6 +62,7 @@ func vrandMain(args []string) int {
 	}
 	type iv struct{ a, b int }
 	var used []iv
+	var stream []byte
 	for _, op := range ops {
 		p := strings.Split(op, ":")
 		n, _ := strconv.Atoi(p[0])
@@ -92,11 +93,20 @@ func vrandMain(args []string) int {
 			}
 			c.Len = len(ent)
 			del := vrand.Delivered()
-			stream := make([]byte, del)
-			for i := range stream {
-				stream[i] = vrand.ByteAt(i)
+			for i := len(stream); i < del; i++ {
+				stream = append(stream, vrand.ByteAt(i))
 			}
-			c.Offset = bytes.Index(stream, ent)
+			// look near the end first (the usual place), then everywhere
+			from := len(stream) - 4096
+			if from < 0 {
+				from = 0
+			}
+			c.Offset = bytes.Index(stream[from:], ent)
+			if c.Offset >= 0 {
+				c.Offset += from
+			} else {
+				c.Offset = bytes.Index(stream, ent)
+			}
 			if c.Offset < 0 {
 				c.Problem = fmt.Sprintf("the entropy %x of the result occurs nowhere in the %d bytes the default source delivered: other data was mixed in or substituted", ent, del)
 				break
